@@ -486,6 +486,8 @@ class FnTr:
                 return self.finish_init()
             raise Unsupported(f'`{self.inst.qual}`: control can fall off the end (returns None)')
         s, rest = stmts[0], stmts[1:]
+        if self.u.hooks.get('curved_gen') and isinstance(s, ast.Assert):
+            return self.cv_assert(s, rest)        # `assert T`: AssertionError unless T
         if self.u.hooks.get('geojson_doc'):
             ext = self.gj_stmt(s, rest)           # dict stores, appends of raising values, nested defs with declared types: see `gj_stmt`
             if ext is not None:
@@ -2673,7 +2675,36 @@ class FnTr:
             return f'(Int.toNat {v.text})'
         raise Unsupported(f'`{self.inst.qual}`: `{ast.unparse(node)[:60]}` ({v.typ}) as a sample count')
 
+    def cv_assert(self, s, rest):
+        if not self.inst.raises:
+            raise Unsupported(f'`{self.inst.qual}`: `{ast.unparse(s)[:60]}` (AssertionError) in an instance declared not to raise')
+        c = self.truth(self.expr(s.test))
+        pend, self.pending = self.pending, []
+        after = self.block(rest)
+        self.pending = pend
+        return self.wrap(f'if {c} then\n{_indent(after)}\nelse\n  Except.error "ERR:Other:AssertionError"')
+
     def cv_expr(self, e):
+        if isinstance(e, ast.ListComp) and len(e.generators) == 1 and not e.generators[0].ifs and not e.generators[0].is_async \
+                and isinstance(e.generators[0].target, ast.Tuple) and len(e.generators[0].target.elts) == 2 \
+                and all(isinstance(t, ast.Name) for t in e.generators[0].target.elts):
+            # `[f(x, y) for x, y in zip(xs, ys)]`: a map over the list of pairs
+            g = e.generators[0]
+            xs = self.expr(g.iter)
+            parts = _prod_parts(xs.typ[5:]) if xs.typ.startswith('List Prod ') else None
+            if not parts or len(parts) != 2:
+                raise Unsupported(f'`{self.inst.qual}`: comprehension with a pair target over {xs.typ}')
+            p = self.gensym('pair')
+            inner = self.sub()
+            inner.fresh = self.fresh
+            for i, (t, pt) in enumerate(zip(g.target.elts, parts)):
+                inner.env[t.id] = Val(f'{p}.{i + 1}', pt, path=t.id)
+                inner.narrow.pop(t.id, None)
+            el = inner.expr(e.elt)
+            if inner.pending:
+                raise Unsupported(f'`{self.inst.qual}`: a call that may raise inside a comprehension')
+            self.fresh = inner.fresh
+            return Val(f'(({xs.text}).map (fun {p} => {el.text}))', 'List ' + el.typ)
         if isinstance(e, ast.BoolOp) and isinstance(e.op, ast.Or) and len(e.values) == 2 and isinstance(e.values[0], ast.Call) \
                 and isinstance(e.values[0].func, ast.Attribute) and isinstance(e.values[0].func.value, ast.Name) \
                 and e.values[0].func.value.id in self.env and self.env[e.values[0].func.value.id].typ == 'KwK':
